@@ -44,6 +44,16 @@ std::vector<Entry> entries() {
   e.push_back({"A+=Evolve(op,t)", [](SU_vector& A, SU_vector& B, Aux& x) { A += B.Evolve(*x.Hb, 0.3); }});
   e.push_back({"A-=Evolve(buffer)", [](SU_vector& A, SU_vector& B, Aux& x) { A -= B.Evolve(x.bufb); }});
   e.push_back({"A+=ElementwiseProduct", [](SU_vector& A, SU_vector& B, Aux&) { A += ElementwiseProduct(B, B); }});
+  // expressions whose operands are themselves expressions
+  e.push_back({"(A+A)+B", [](SU_vector& A, SU_vector& B, Aux&) { SU_vector r = (A + A) + B; (void)r; }});
+  e.push_back({"(A-A)-B", [](SU_vector& A, SU_vector& B, Aux&) { SU_vector r = (A - A) - B; (void)r; }});
+  e.push_back({"(A+A)+(B+B)", [](SU_vector& A, SU_vector& B, Aux&) { SU_vector r = (A + A) + (B + B); (void)r; }});
+  e.push_back({"(A*2)-(B*2)", [](SU_vector& A, SU_vector& B, Aux&) { SU_vector r = (A * 2.0) - (B * 2.0); (void)r; }});
+  e.push_back({"(A+A)*(B+B)", [](SU_vector& A, SU_vector& B, Aux&) { volatile double x = (A + A) * (B + B); (void)x; }});
+  e.push_back({"(A+A).Evolve(B,t)", [](SU_vector& A, SU_vector& B, Aux&) { SU_vector r = (A + A).Evolve(B, 0.3); (void)r; }});
+  e.push_back({"(A+A).Evolve(B+B,t)", [](SU_vector& A, SU_vector& B, Aux&) { SU_vector r = (A + A).Evolve(B + B, 0.3); (void)r; }});
+  e.push_back({"iCommutator(A,iCommutator(B,B))", [](SU_vector& A, SU_vector& B, Aux&) { SU_vector r = iCommutator(A, iCommutator(B, B)); (void)r; }});
+  e.push_back({"T=A;T=iCommutator(T,B)", [](SU_vector& A, SU_vector& B, Aux& x) { SU_vector t2(A); t2 = iCommutator(t2, B); (void)x; }});
   // time evolution of A by an operator of another dimension
   e.push_back({"construct-from-A.Evolve(B,t)", [](SU_vector& A, SU_vector& B, Aux&) { SU_vector r = A.Evolve(B, 0.3); (void)r; }});
   e.push_back({"T=A.Evolve(B,t)", [](SU_vector& A, SU_vector& B, Aux& x) { *x.T = A.Evolve(B, 0.3); }});
